@@ -7,14 +7,9 @@
    are lists of "written" marks or plain lengths.  [fx = true] is the repaired
    code, [fx = false] the code as pinned.  No proofs in this file. *)
 From Coq Require Import ZArith Bool List String.
-From Hy Require Import Base.Num Model.Safety.
+From Hy Require Import Base.Num Gen.ConstsC05 Model.Safety.
 Import ListNotations.
 Open Scope Z_scope.
-
-Definition bindR {A B} (m : res A) (k : A -> res B) : res B :=
-  match m with Ok a => k a | Err e => Err e end.
-Notation "'let?' x ':=' m 'in' k" := (bindR m (fun x => k))
-  (at level 200, x pattern, m at level 100, k at level 200).
 
 (* getnxy: nxy[0] = idxcell % ncols; nxy[1] = (idxcell - nxy[0]) / ncols *)
 Definition getnxy (ncols idx : Z) : res (Z * Z) :=
@@ -96,7 +91,7 @@ Definition sub {A S} (m : step A) (f : A -> S) (k : A -> step S) : step S :=
   end.
 
 (* the local array `long long neighbours[9]` of c_upstream / c_downstream *)
-Definition nb_local : list Z := repeat (-1) 9.
+Definition nb_local : list Z := repeat (-1) (Z.to_nat NEIGHBOURS_SIZE).
 
 (* ================================================================== *)
 (* c_upstream(nrows, ncols, flowdircode, flowdir, nval, idxdown, idxup) *)
@@ -120,11 +115,11 @@ Definition upstream (nrows ncols : Z) (code flowdir : list Z) (nval : Z) (idxdow
                      else
                        let! cd := rd "flowdircode" 0 code (8 - j) in
                        if fd =? cd then
-                         let! o := wr "idxup" (up_out s) (9 * i + up_k s) idxn in
+                         let! o := wr "idxup" (up_out s) (UPSTREAM_STRIDE * i + up_k s) idxn in
                          Next (mkUp (up_k s + 1) o)
                        else Next s) (mkUp 0 out)) up_out (fun s =>
         sub (forZ (up_k s) 9 (fun j s =>
-                   let! o := wr "idxup" (up_out s) (9 * i + j) (-1) in
+                   let! o := wr "idxup" (up_out s) (UPSTREAM_STRIDE * i + j) (-1) in
                    Next (mkUp (up_k s) o)) s) up_out (fun s =>
         Next (up_out s))))) idxup).
 
@@ -232,7 +227,7 @@ Definition da_layer_step (nrows ncols : Z) (code flowdir : list Z) (idxoutlet ni
   let s := mkDa (da_i s) (da_nb2 s) 0 (da_layer s) (da_area s) (da_b1 s) (da_b2 s) in
   do! s := forZ 0 (da_nb1 s) (fun l s =>
       let! cell := rd "buffer1" 0 (da_b1 s) l in
-      call (upstream nrows ncols code flowdir 1 [cell] (repeat (-1) 9)) (fun _ idxup =>
+      call (upstream nrows ncols code flowdir 1 [cell] (repeat (-1) (Z.to_nat IDXUP_SIZE))) (fun _ idxup =>
         forZ 0 9 (fun k s =>
           let! idx := rd "idxup" 0 idxup k in
           if 0 <=? idx then
@@ -290,7 +285,7 @@ Section Boundary.
 Context {T : Type} (N : NumOps T).
 
 (* (long long)((double)nbuffer * percmax), percmax = 0.8 *)
-Definition percmax : T := ndiv N (nofZ N 4) (nofZ N 5).
+Definition percmax : T := ndiv N (nofZ N PERCMAX_NUM) (nofZ N PERCMAX_DEN).
 Definition bd_threshold (nbuffer : Z) : res Z :=
   cast64 (ntrunc N (nmul N (nofZ N nbuffer) percmax)).
 
@@ -404,12 +399,12 @@ Definition delineate_river (nrows ncols : Z) (code flowdir : list Z) (idxupstrea
     let! np := wr "npoints" (rv_np s) 0 (n + 1) in
     call (down1 nrows ncols code flowdir (rv_up s) 0) (fun _ r =>
       let '(_, d) := r in
-      let! dt := mark "data" (rv_data s) (5 * i) in
-      let! dt := mark "data" dt (5 * i + 1) in
-      let! dt := mark "data" dt (5 * i + 2) in
+      let! dt := mark "data" (rv_data s) (RIVER_NCOLS * i) in
+      let! dt := mark "data" dt (RIVER_NCOLS * i + 1) in
+      let! dt := mark "data" dt (RIVER_NCOLS * i + 2) in
       let! _ := getnxy ncols (rv_up s) in
-      let! dt := mark "data" dt (5 * i + 3) in
-      let! dt := mark "data" dt (5 * i + 4) in
+      let! dt := mark "data" dt (RIVER_NCOLS * i + 3) in
+      let! dt := mark "data" dt (RIVER_NCOLS * i + 4) in
       let! _ := getnxy ncols (rv_up s) in
       let! _ := getnxy ncols d in
       let s' := mkRv d np cells dt in
@@ -506,7 +501,7 @@ Definition intersect (fx : bool) (nrows ncols : Z) (xll yll csz : T) (nval : Z) 
 (* c_voronoi(nrows, ncols, xll, yll, csz, ncells, idxcells_area, npoints, xypoints, weights):
    weights are modelled (they decide nothing, but are cheap and exact) *)
 Definition half : T := ndiv N (n1 N) (nofZ N 2).
-Definition big : T := nofZ N (10 ^ 30).
+Definition big : T := nofZ N (10 ^ VORONOI_DISTMIN_EXP).
 
 Record vrst := mkVr { vr_dmin : T; vr_jmin : Z }.
 
